@@ -229,7 +229,164 @@ def post_result_passes_own_check(self, data_container, result):
         f"dtype {getattr(result, 'dtype', getattr(result, 'dtypes', None))} fails {self}.check"
 
 
-POSTCONDITIONS = [post_same_length_and_labels, post_result_passes_own_check]
+def _element_fails(t, v):
+    """Does the type's own per-element conversion reject v?
+    'fails' | 'null' (answers with a missing value) | 'value'."""
+    import warnings
+    from .c10_gen import is_null
+    with warnings.catch_warnings():
+        warnings.simplefilter("ignore")
+        try:
+            f = getattr(t, "_coerce_element", None)
+            if f is not None:
+                # python generic types: the per-element conversion answers
+                # with NA for an element it rejects
+                return "fails" if is_null(f(v)) else "value"
+            r = t.coerce_value(v)
+        except Exception:
+            return "fails"
+    try:
+        return "null" if is_null(r) else "value"
+    except Exception:
+        return "value"
+
+
+# spellings pandas' text parsers read as "missing" (pandas._libs.parsers
+# STR_NA_VALUES + the NaT spellings): whether such a string "holds a value" is
+# not settled by the statement, so a marker that comes back as a missing value
+# is counted, not judged
+TEXT_NA_MARKERS = frozenset(m.lower() for m in (
+    "", "#N/A", "#N/A N/A", "#NA", "-1.#IND", "-1.#QNAN", "-NaN", "-nan",
+    "1.#IND", "1.#QNAN", "<NA>", "N/A", "NA", "NULL", "NaN", "None", "n/a",
+    "nan", "null", "NaT"))
+
+
+def is_text_na_marker(v):
+    if isinstance(v, (bytes, np.bytes_)):
+        try:
+            v = bytes(v).decode()
+        except Exception:
+            return False
+    return isinstance(v, str) and v.strip().lower() in TEXT_NA_MARKERS
+
+
+def _cells(c):
+    """(python boxed, numpy boxed) cells of a 1-D pandas container."""
+    s = c.to_series(index=range(len(c))) if isinstance(c, pd.Index) else c
+    return s.tolist(), [s.iloc[i] for i in range(len(s))]
+
+
+def silently_nulled(t, cin, cout):
+    """Positions of a 1-D pandas container whose input cell holds a value and
+    whose output cell is missing, each with the verdict of the type's own
+    per-element conversion on the input cell:
+
+    * 'unconvertible'  coerce_value rejects it (in both boxings): the element
+      cannot be converted individually, so the statement wants a ParserError
+      that names it, not a result in which it is gone;
+    * 'null-by-coerce_value'  coerce_value answers with a missing value too
+      ('nan' -> float, 'NaT' -> datetime): consistent;
+    * 'text-na-marker'  the input cell is a string that pandas reads as a
+      missing value ('', 'nan', 'None', '<NA>', ...): not judged;
+    * 'reference-stricter-than-coerce'  coerce_value also rejects a cell of
+      the same python class that this very coercion turned into a value
+      (pyarrow scalars reject every string, np.timedelta64 every float, while
+      the container conversion parses them): coerce_value does not describe
+      what the container conversion accepts for this class, not judged;
+    * 'undecided'  the boxings disagree, or coerce_value answers with a value.
+
+    Returns (number of input cells holding a value, [(i, cell, verdict)]).
+    """
+    from .c10_gen import is_null
+    pin, nin = _cells(cin)
+    pout, _ = _cells(cout)
+    held, out = 0, []
+    for i, v in enumerate(pin):
+        if is_null(v):
+            continue
+        held += 1
+        if not is_null(pout[i]):
+            continue
+        a, b = _element_fails(t, v), _element_fails(t, nin[i])
+        if is_text_na_marker(v):
+            verdict = "text-na-marker"
+        elif a == b == "fails":
+            verdict = "unconvertible"
+        elif a == b == "null":
+            verdict = "null-by-coerce_value"
+        else:
+            verdict = "undecided"
+        out.append((i, v, verdict))
+    if any(verdict == "unconvertible" for _, _, verdict in out):
+        stricter = {type(v) for i, v in enumerate(pin)
+                    if not is_null(v) and not is_null(pout[i])
+                    and _element_fails(t, v) == "fails"
+                    and _element_fails(t, nin[i]) == "fails"}
+        out = [(i, v, "reference-stricter-than-coerce"
+                if verdict == "unconvertible" and type(v) in stricter else verdict)
+               for i, v, verdict in out]
+    return held, out
+
+
+@_cond("no_unconvertible_value_silently_nulled")
+def post_no_unconvertible_value_silently_nulled(self, data_container, result):
+    """A successful coercion never turns an element that cannot be converted
+    individually into a missing value (pandas: judged through the type's own
+    coerce_value; polars: a strict cast never yields a null for a value)."""
+    from .c10_gen import vrepr
+    if _engine_of(self) == "polars":
+        df_in, df_out, key = polars_frames(data_container, result)
+        cols = [key] if key not in (None, "*") else list(df_in.columns)
+        for c in cols:
+            if c not in df_in.columns or c not in df_out.columns or \
+                    df_in.height != df_out.height:
+                continue
+            try:
+                lost = (df_out[c].is_null() & df_in[c].is_not_null()).arg_true().to_list()
+            except BaseException as e:  # pyo3 panics are not Exceptions
+                if isinstance(e, (KeyboardInterrupt, SystemExit)):
+                    raise
+                REC.undecided["cells-not-comparable(polars)"] += 1
+                continue
+            if lost:
+                return False, f"column {c!r}: rows {lost[:8]} hold a value in the " \
+                              "input and a null in the result"
+        return True, None
+    if isinstance(data_container, np.ndarray) or isinstance(result, np.ndarray):
+        REC.undecided["ndarray-cells(numpy-astype-of-pandas-scalars)"] += 1
+        return True, None
+    if type(result).__name__ != type(data_container).__name__ and not (
+            isinstance(result, pd.Index) and isinstance(data_container, pd.Index)):
+        return True, None          # reported by same_length_and_labels
+    if len(result) != len(data_container):
+        return True, None
+    if isinstance(data_container, pd.DataFrame):
+        if data_container.shape != result.shape:
+            return True, None
+        pairs = [(str(data_container.columns[j]), data_container.iloc[:, j],
+                  result.iloc[:, j]) for j in range(data_container.shape[1])]
+    else:
+        pairs = [(None, data_container, result)]
+    for col, cin, cout in pairs:
+        try:
+            # cheap screen before any cell is boxed
+            screen = np.asarray(pd.isna(cout)) & ~np.asarray(pd.isna(cin))
+            if not screen.any():
+                continue
+            _, found = silently_nulled(self, cin, cout)
+        except Exception:
+            REC.undecided["cells-not-materialisable-as-python-objects"] += 1
+            continue
+        for i, v, verdict in found:
+            if verdict == "unconvertible":
+                return False, f"position {i}" + (f" of column {col!r}" if col else "") + \
+                    f": {vrepr(v)} is rejected by coerce_value and is missing in the result"
+            REC.undecided[f"nulled-value:{verdict}"] += 1
+    return True, None
+
+
+POSTCONDITIONS = [post_same_length_and_labels, post_result_passes_own_check,
+                  post_no_unconvertible_value_silently_nulled]
 
 
 def _guard(contracted):
